@@ -29,6 +29,17 @@ must share nothing with the source (a replaced array is a fresh one), every fiel
 is the source's, a named field holds the value of the call; in the model the `given` record of such a
 case is what the CALL said, merged by `pick_scal` / `copy_route`, so Coq predicts the result from the
 source and the arguments.
+
+Attribute VALUES: the attrib dictionaries of the object, of its atoms and of its bonds also hold MUTABLE values
+(ndarray, list, dict, nested ones -- what the xtb / orca pipelines leave behind).  The mutable values one dictionary
+holds are one more container of the model (`CVal`, the store the dictionary points to).  Routes whose contract is a
+deep copy (pickle round trip, copy.deepcopy -- of every class, of a Conformer, of a lone Atom / Bond) must hand out
+values of their own at every level: the table row says VFresh (kernel-checked), the result shares no value object
+(nested ones included) with the source, and an IN-PLACE edit of a value (arr *= k, lst.append(x), d[k] = v, on a
+nested member too) on either side leaves the other side as it was.  The copy constructors, evolve and what is built
+from evolved atoms (concatenate, join, ensemble-from-list) copy the dictionary one level: there the table records
+VShared, the model predicts the shared store, and the value content must still be equal; the in-place edit of such
+a value is outside what the property enumerates (see DESIGN) and is not held against these routes.
 """
 import os, sys, json, struct, pickle, copy as _copy, itertools, math
 import vlib
@@ -94,6 +105,113 @@ def arr_key(a):
 def flat(a):
     import numpy as np
     return [leaf_key(x) for x in np.asarray(a, dtype=float).ravel().tolist()]
+
+
+# ------------------------------------------------------------------ mutable values inside attrib dictionaries
+def is_mut(v):
+    import numpy as np
+    return isinstance(v, (np.ndarray, list, dict, set, bytearray))
+
+
+def vkey(v):
+    """What an attrib dictionary shows of a value WITHOUT looking into it: a leaf, or a content-free token for a
+    mutable value (its content lives in the store of the dictionary)."""
+    return ("ref", type(v).__name__) if is_mut(v) else leaf_key(v)
+
+
+def flat_val(v, out, members):
+    """Leaves of a value in depth-first order (-> out) and every mutable object met on the way (-> members)."""
+    import numpy as np
+    if isinstance(v, np.ndarray):
+        members.append(v)
+        out.append(("arr", str(v.dtype), tuple(v.shape)))
+        out.extend(leaf_key(x) for x in v.ravel().tolist())
+    elif isinstance(v, (list, tuple)):
+        if isinstance(v, list):
+            members.append(v)
+        out.append((type(v).__name__, len(v)))
+        for x in v:
+            flat_val(x, out, members)
+    elif isinstance(v, dict):
+        members.append(v)
+        out.append(("dict", len(v)))
+        for k, x in v.items():
+            out.append(leaf_key(k))
+            flat_val(x, out, members)
+    elif isinstance(v, (set, bytearray)):
+        members.append(v)
+        out.append((type(v).__name__, repr(sorted(v, key=repr) if isinstance(v, set) else bytes(v))))
+    else:
+        out.append(leaf_key(v))
+
+
+def dict_store(d):
+    """(content, members) of the mutable values dictionary d holds; content is None when it holds none."""
+    out, members = [], []
+    for k, v in d.items():
+        if is_mut(v):
+            flat_val(v, out, members)
+    return (out if members else None), members
+
+
+def same_obj(x, y):
+    import numpy as np
+    if x is y:
+        return True
+    return isinstance(x, np.ndarray) and isinstance(y, np.ndarray) and x.size > 0 and y.size > 0 and np.shares_memory(x, y)
+
+
+def member_key(x):
+    import numpy as np
+    if isinstance(x, np.ndarray) and x.size:
+        return ("a", x.__array_interface__["data"][0])
+    return ("o", id(x))
+
+
+def rnd_value(rng, k=None):
+    """A mutable attribute value of the kinds the molli pipelines store (flat: k < 4, nested: k >= 4)."""
+    import numpy as np
+    k = rng.randrange(7) if k is None else k
+    if k == 0:
+        return np.array([rnd_float(rng) for _ in range(rng.randrange(1, 4))])
+    if k == 1:
+        return np.array([[rnd_float(rng), 1.0], [0.5, rnd_float(rng)]])
+    if k == 2:
+        return [rng.randrange(9), 2.5, "s"][: rng.randrange(1, 4)]
+    if k == 3:
+        return {"value": rnd_float(rng), "method": "gfn2"}
+    if k == 4:
+        return [1, [rng.randrange(9), 3.5]]
+    if k == 5:
+        return {"grad": np.array([rnd_float(rng), 0.25]), "n": 2}
+    return [{"i": rng.randrange(5)}, {"w": [0.5]}]
+
+
+def edit_value_in_place(d, rng):
+    """Edits, in place, one of the mutable objects stored (at any depth) in dictionary d.  Never rebinds a key, never
+    adds or removes a mutable object.  Returns a description, or None when d holds no mutable value."""
+    import numpy as np
+    _, members = dict_store(d)
+    if not members:
+        return None
+    x = rng.choice(members)
+    if isinstance(x, np.ndarray):
+        if x.size and rng.random() < 0.5:
+            x *= 627.5
+        elif x.size:
+            x.flat[rng.randrange(x.size)] = -99.5
+        return "ndarray"
+    if isinstance(x, list):
+        leafs = [i for i, y in enumerate(x) if not isinstance(y, (list, dict, tuple, np.ndarray, set))]
+        if leafs and rng.random() < 0.5:
+            x[rng.choice(leafs)] = "edited"
+        else:
+            x.append(-1.0)
+        return "list"
+    if isinstance(x, dict):
+        x["edited"] = 0.0
+        return "dict"
+    return None
 
 
 # ------------------------------------------------------------------ units: what is read as "one object"
@@ -174,13 +292,13 @@ def raw_obs(unit):
                 return i
         return None
 
-    A = [([leaf_key(getattr(a, f)) for f in ATOM_FIELDS], [(leaf_key(k), leaf_key(v)) for k, v in a.attrib.items()], pcl(a))
+    A = [([leaf_key(getattr(a, f)) for f in ATOM_FIELDS], [(leaf_key(k), vkey(v)) for k, v in a.attrib.items()], pcl(a))
          for a in atoms]
     bl = getattr(o, "bonds", None) if _has_bonds(o) else None
     B = None
     if bl is not None:
         B = [(idx(b.a1), idx(b.a2), [leaf_key(getattr(b, f)) for f in BOND_FIELDS],
-              [(leaf_key(k), leaf_key(v)) for k, v in b.attrib.items()], pcl(b)) for b in bl]
+              [(leaf_key(k), vkey(v)) for k, v in b.attrib.items()], pcl(b)) for b in bl]
 
     def arr(name):
         try:
@@ -192,7 +310,24 @@ def raw_obs(unit):
             "coords": arr("coords") if _pub(o, "coords") else None,
             "charges": arr("atomic_charges") if _pub(o, "atomic_charges") else None,
             "weights": arr("weights") if _pub(o, "weights") else None,
-            "attrib": [(leaf_key(k), leaf_key(v)) for k, v in o.attrib.items()]}
+            "attrib": [(leaf_key(k), vkey(v)) for k, v in o.attrib.items()],
+            # the DEEP part (mirrors Model/Alias.v `stores`): content of the mutable values held by the attrib dictionaries
+            "stores": {"obj": dict_store(o.attrib)[0], "atoms": [dict_store(a.attrib)[0] for a in atoms],
+                       "bonds": [dict_store(b.attrib)[0] for b in bl] if bl is not None else []}}
+
+
+def no_stores(ro):
+    return {k: v for k, v in ro.items() if k != "stores"}
+
+
+def stores_term(ro, it):
+    if ro is None:
+        return "None"
+
+    def oz(c):
+        return "None" if c is None else "(Some " + cq_list(Zt(it(k)) for k in c) + ")"
+    st = ro["stores"]
+    return f"(Some (mk_stores {oz(st['obj'])} {cq_list(oz(c) for c in st['atoms'])} {cq_list(oz(c) for c in st['bonds'])}))"
 
 
 def _pub(o, name):
@@ -237,6 +372,10 @@ def strip_obs(ro, need):
         d["scal"] = ro["scal"]
     if need["attrib"]:
         d["attrib"] = ro["attrib"]
+        d["attrib-values"] = ro["stores"]["obj"]
+    d["atom-attrib-values"] = ro["stores"]["atoms"]
+    if need["bonds"]:
+        d["bond-attrib-values"] = ro["stores"]["bonds"]
     return d
 
 
@@ -291,6 +430,34 @@ class Enc:
         self.objs.append(("synth", term))
         return len(self.objs) - 1
 
+    # -- the store of the mutable values a dictionary holds: identified by the objects themselves (a dictionary copied
+    #    one level holds the SAME objects: the same store), re-read through the dictionary it was first met in
+    def store_key(self, d):
+        _, members = dict_store(d)
+        return ("vs",) + tuple(member_key(x) for x in members) if members else None
+
+    def reg_store(self, d, at=None):
+        k = self.store_key(d)
+        if k is None:
+            return None
+        if k in self.loc:
+            return self.loc[k]
+        self.keep.append(dict_store(d)[1])
+        if at is None:
+            at = len(self.objs)
+            self.objs.append(None)
+        else:
+            while len(self.objs) <= at:
+                self.objs.append(None)
+            assert self.objs[at] is None, "layout slot taken twice"
+        self.objs[at] = ("store", d)
+        self.loc[k] = at
+        return at
+
+    def store_known(self, d):
+        k = self.store_key(d)
+        return k is None or k in self.loc
+
     def pad(self, n):
         while len(self.objs) < n:
             self.objs.append(None)
@@ -300,7 +467,11 @@ class Enc:
         return cq_list(Zt(self.it(k)) for k in keys)
 
     def dct(self, d):
-        return cq_list(f"({Zt(self.it(leaf_key(k)))}, {Zt(self.it(leaf_key(v)))})" for k, v in d.items())
+        return cq_list(f"({Zt(self.it(leaf_key(k)))}, {Zt(self.it(vkey(v)))})" for k, v in d.items())
+
+    def dcell(self, d):
+        st = self.reg_store(d)
+        return f"(CDict {self.dct(d)} {'None' if st is None else f'(Some {st})'})"
 
     def pref(self, x):
         try:
@@ -327,7 +498,10 @@ class Enc:
         if kind == "synth":
             return x
         if kind == "dict":
-            return f"(CDict {self.dct(x)})"
+            return self.dcell(x)
+        if kind == "store":
+            c = dict_store(x)[0]
+            return "CFree" if c is None else f"(CVal {self.zs(c)})"
         if kind == "arr":
             return f"(CArr {self.zs(flat(x))})"
         if kind == "atom":
@@ -372,12 +546,15 @@ def rnd_float(rng):
     return rng.choice([0.0, 1.5, -2.25, 0.125, 3.0, -0.5, 7.75, 1e-3, 12.0625, -4.5]) + rng.randrange(0, 8)
 
 
-def make_source(ml, rng, kname, n=None, rich=False):
-    """A random object of class kname built through the public API."""
+def make_source(ml, rng, kname, n=None, rich=False, vals=True, ensure=None):
+    """A random object of class kname built through the public API.  vals: the attrib dictionaries may hold mutable
+    values (ndarray / list / dict / nested); ensure in ("obj", "atom", "bond"): at least one at that level."""
     import numpy as np
     from molli.chem import Atom, Bond, AtomType, AtomStereo, AtomGeom, BondType, BondStereo
     base = "ConformerEnsemble" if kname == "Conformer" else kname
     n = rng.randrange(1, 6) if n is None else n
+    if ensure == "bond" and n < 2:
+        n = 2
     atoms = []
     for i in range(n):
         a = Atom(rng.choice(ELEMS), isotope=rng.choice([None, None, 13, 2]), label=rng.choice([None, f"L{i}", "x"]),
@@ -387,10 +564,16 @@ def make_source(ml, rng, kname, n=None, rich=False):
             a.attrib[f"k{rng.randrange(3)}"] = rng.choice([1, "v", 2.5, (1, 2)])
         if rng.random() < 0.2:
             a.attrib["__implicit_hydrogens"] = rng.randrange(0, 3)
+        if vals == "rich":       # instrumented sources: a flat and a nested value in every dictionary
+            a.attrib["NMR_shielding"], a.attrib["grad"] = rnd_value(rng, rng.randrange(4)), rnd_value(rng, 4 + rng.randrange(3))
+        elif vals and (rng.random() < 0.4 or (ensure == "atom" and i == 0)):
+            a.attrib[rng.choice(["NMR_shielding", "grad"])] = rnd_value(rng)
         atoms.append(a)
     pairs = [(i, j) for i in range(n) for j in range(i + 1, n)]
     rng.shuffle(pairs)
     pairs = pairs[: rng.randrange(0, min(len(pairs), n + 1) + 1)] if not rich else pairs[: max(1, min(len(pairs), n))]
+    if ensure == "bond" and not pairs and n >= 2:
+        pairs = [(0, 1)]
     coords = [[rnd_float(rng) + 0.37 * i, rnd_float(rng) - 0.11 * i, rnd_float(rng) + 0.05 * i * i] for i in range(n)]
     charges = [rng.choice([0.25, -0.5, 0.125, 1.0, -0.0625]) for _ in range(n)]
     cls = {"Promolecule": ml.Promolecule, "Connectivity": ml.Connectivity, "CartesianGeometry": ml.CartesianGeometry,
@@ -409,11 +592,21 @@ def make_source(ml, rng, kname, n=None, rich=False):
                      stereo=rng.choice(list(BondStereo)), f_order=rng.choice([1.0, 1.5, 2.0]))
             if rich or rng.random() < 0.5:
                 b.attrib[f"q{rng.randrange(2)}"] = rng.choice([7, "w"])
+            if vals == "rich":
+                b.attrib["wbo"], b.attrib["lmo"] = rnd_value(rng, rng.randrange(4)), rnd_value(rng, 4 + rng.randrange(3))
+            elif vals and (rng.random() < 0.4 or ensure == "bond"):
+                b.attrib["wbo"] = rnd_value(rng)
             o.append_bond(b)
     if rich or rng.random() < 0.7:
         o.attrib[f"m{rng.randrange(3)}"] = rng.choice([1, "z", 0.5])
     if rich:
         o.attrib["m9"] = "nine"
+    if vals == "rich":
+        o.attrib["XTB/Conformer_Energies"], o.attrib["history"] = rnd_value(rng, rng.randrange(4)), rnd_value(rng, 4 + rng.randrange(3))
+    elif vals and (rng.random() < 0.5 or ensure == "obj"):
+        o.attrib["XTB/Conformer_Energies"] = rnd_value(rng)
+        if rng.random() < 0.4:
+            o.attrib["history"] = rnd_value(rng)
     if base == "ConformerEnsemble":
         nc = rng.randrange(1, 4)
         mols = [o]
@@ -435,7 +628,7 @@ def make_source(ml, rng, kname, n=None, rich=False):
 DESIGNATORS = ["atom", "index", "negindex", "label", "element"]
 
 
-def make_joinable(ml, rng, kname):
+def make_joinable(ml, rng, kname, vals=True):
     """A structure with one attachment point -- at a RANDOM position of the atom list -- bonded to exactly one
     atom; non-degenerate geometry; pairwise distinct partial charges.  The attachment point is the only atom
     with its label and its element, and its element's integer value is a valid atom index different from
@@ -452,6 +645,10 @@ def make_joinable(ml, rng, kname):
                  atype=rng.choice([t for t in AtomType if t != AtomType.AttachmentPoint]), stereo=rng.choice(list(AtomStereo)),
                  geom=rng.choice(list(AtomGeom)), formal_charge=rng.choice([0, 1, -1]))
         a.attrib[f"k{i}"] = rng.choice([1, "v", 2.5])
+        if vals == "rich":
+            a.attrib["NMR_shielding"], a.attrib["grad"] = rnd_value(rng, rng.randrange(4)), rnd_value(rng, 4 + rng.randrange(3))
+        elif vals and (i == 0 or rng.random() < 0.4):
+            a.attrib["grad"] = rnd_value(rng)
         real.append(a)
     atoms = real[:k] + [ap] + real[k:]
     o = ctor(ml, kname)(name=rng.choice(["fragA", "fragB"]), charge=rng.choice([None, 1]))
@@ -467,9 +664,17 @@ def make_joinable(ml, rng, kname):
     for x, y in pairs[: rng.randrange(1, len(pairs) + 1)]:
         b = Bond(real[x], real[y], btype=rng.choice(list(BondType)), stereo=rng.choice(list(BondStereo)), f_order=rng.choice([1.0, 1.5]))
         b.attrib["q"] = rng.choice([7, "w"])
+        if vals == "rich":
+            b.attrib["wbo"], b.attrib["lmo"] = rnd_value(rng, rng.randrange(4)), rnd_value(rng, 4 + rng.randrange(3))
+        elif vals and rng.random() < 0.6:
+            b.attrib["wbo"] = rnd_value(rng)
         o.append_bond(b)
     o.append_bond(Bond(real[rng.randrange(n)], ap))
     o.attrib["frag"] = k
+    if vals == "rich":
+        o.attrib["XTB/Conformer_Energies"], o.attrib["history"] = rnd_value(rng, rng.randrange(4)), rnd_value(rng, 4 + rng.randrange(3))
+    elif vals:
+        o.attrib["XTB/Conformer_Energies"] = rnd_value(rng)
     return o, ap
 
 
@@ -644,14 +849,14 @@ def apply_single(ml, src, route, kw=None):
     return Unit(src, thr), Unit(res, thr)
 
 
-def apply_multi(ml, rng, kname, route, pre=lambda units, v: None, desig=None, kwout=None):
+def apply_multi(ml, rng, kname, route, pre=lambda units, v: None, desig=None, kwout=None, vals=True, ensure=None):
     """Derived molecules. Returns (list of source units, VSrc, result unit); `pre` is called with the
     sources and their union object before the route runs."""
     import numpy as np
     from molli.chem import Bond
     cls = ctor(ml, route[1]) if route[0] in ("concat", "join") else None
     if route[0] == "concat":
-        srcs = [make_source(ml, rng, kname) for _ in range(route[2])]
+        srcs = [make_source(ml, rng, kname, vals=vals, ensure=ensure) for _ in range(route[2])]
         ch = np.concatenate([s.atomic_charges for s in srcs]) if kname == "Molecule" else None
         v = VSrc(kname, [a for s in srcs for a in s.atoms], [b for s in srcs for b in s.bonds],
                  np.vstack([s.coords for s in srcs]), ch, None, None, None, srcs)
@@ -660,7 +865,7 @@ def apply_multi(ml, rng, kname, route, pre=lambda units, v: None, desig=None, kw
         res = cls.concatenate(*srcs)
         return units, v, Unit(res)
     if route[0] == "join":
-        (s1, ap1), (s2, ap2) = make_joinable(ml, rng, kname), make_joinable(ml, rng, kname)
+        (s1, ap1), (s2, ap2) = make_joinable(ml, rng, kname, vals), make_joinable(ml, rng, kname, vals)
         a1r = next(s1.connected_atoms(ap1)); a2r = next(s2.connected_atoms(ap2))
         atoms = [a for a in itertools.chain(s1.atoms, s2.atoms) if a is not ap1 and a is not ap2]
         bonds = [b for b in itertools.chain(s1.bonds, s2.bonds) if ap1 not in b and ap2 not in b]
@@ -679,10 +884,10 @@ def apply_multi(ml, rng, kname, route, pre=lambda units, v: None, desig=None, kw
         return units, v, Unit(res)
     if route[0] in ("ensfromlist", "ensfromlistw"):
         if kname == "Conformer":
-            e = make_source(ml, rng, "ConformerEnsemble")
+            e = make_source(ml, rng, "ConformerEnsemble", vals=vals, ensure=ensure)
             srcs = [e[i] for i in range(e.n_conformers)]
         else:
-            m0 = make_source(ml, rng, "Molecule")
+            m0 = make_source(ml, rng, "Molecule", vals=vals, ensure=ensure)
             srcs = [m0]
             for c in range(rng.randrange(0, 3)):
                 mc = ml.Molecule(m0)
@@ -715,6 +920,33 @@ def st_dict(res_d, src_d):
     if rk == sk:
         return "Copied"
     return "Reset" if not rk else "Odd"
+
+
+def st_vals(res_d, src_d):
+    """The mutable VALUES of a copied dictionary against the source's: VFresh (no object in common, nested ones
+    included, equal content) / VShared (the very objects) / VPart (some of each) / VOdd (other content); None when the
+    source dictionary holds no mutable value (nothing to judge)."""
+    if src_d is None:
+        return None
+    sc, sm = dict_store(src_d)
+    if not sm:
+        return None
+    rc, rm = dict_store(res_d)
+    if rc != sc or len(rm) != len(sm):
+        return "VOdd"
+    common = [any(same_obj(x, y) for y in sm) for x in rm]
+    if all(common):
+        return "VShared"
+    return "VPart" if any(common) else "VFresh"
+
+
+def _join_vst(vs):
+    vs = {v for v in vs if v is not None}
+    if not vs:
+        return None             # nothing mutable to hand out: nothing to judge
+    if len(vs) == 1:
+        return next(iter(vs))
+    return "VOdd" if "VOdd" in vs else "VPart"
 
 
 def st_parent(xs, res_obj, src_parents):
@@ -787,6 +1019,7 @@ def observe_row(src, resu):
     if any(x.attrib is y.attrib for x in ratoms for y in satoms):
         ds.add("Shared")
     row["aattrib"] = _join_st(ds)
+    row["avals"] = _join_vst(st_vals(x.attrib, y.attrib) for x, y in zip(ratoms, satoms))
     row["aparent"] = st_parent(ratoms, resu.read, [_parent_of(y) for y in satoms])
     rbl = resu.bonds_list()
     if rbl is None:
@@ -810,6 +1043,7 @@ def observe_row(src, resu):
         if any(x.attrib is y.attrib for x in rbonds for y in sb):
             ds.add("Shared")
         b["attrib"] = _join_st(ds)
+        b["vals"] = _join_vst(st_vals(x.attrib, y.attrib) for x, y in zip(rbonds, sb))
         b["parent"] = st_parent(rbonds, resu.read, [_parent_of(y) for y in sb])
         es = set()
         for x, y in zip(rbonds, sb):
@@ -827,6 +1061,7 @@ def observe_row(src, resu):
     row["charges"] = st_arr(resu.arr("_atomic_charges"), sch)
     row["weights"] = st_arr(resu.arr("_weights"), swe)
     row["attrib"] = st_dict(resu.attrib(), sat)
+    row["vals"] = _join_vst([st_vals(resu.attrib(), sat)]) if row["attrib"] in ("Copied", "Shared") else None
     row["scal"] = (ssc is not None and resu.scal() == ssc)
     return row
 
@@ -843,9 +1078,10 @@ def _join_st(ds):
 
 def row_term(r):
     b = r["bonds"]
-    bt = "None" if b is None else f"(Some (mk_brow {b['list']} {b['obj']} {b['attrib']} {b['parent']} {b['ends']}))"
+    vt = lambda x: x or "VFresh"        # no mutable value met on any instrumented source: nothing is handed out
+    bt = "None" if b is None else f"(Some (mk_brow {b['list']} {b['obj']} {b['attrib']} {b['parent']} {b['ends']} {vt(b['vals'])}))"
     return (f"(mk_row {r['alist']} {r['atom']} {r['aattrib']} {r['aparent']} {bt} {r['coords']} {r['charges']} "
-            f"{r['weights']} {r['attrib']} {cq_bool(r['scal'])})")
+            f"{r['weights']} {r['attrib']} {cq_bool(r['scal'])} {vt(r['avals'])} {vt(r['vals'])})")
 
 
 def merge_rows(rows):
@@ -858,17 +1094,19 @@ def merge_rows(rows):
                 if r[k] != r0[k]:
                     if k == "bonds":
                         if r0[k] is None or r[k] is None:
-                            out[k] = {"list": "Odd", "obj": "Odd", "attrib": "Odd", "parent": "ROdd", "ends": "EOdd"}
+                            out[k] = {"list": "Odd", "obj": "Odd", "attrib": "Odd", "parent": "ROdd", "ends": "EOdd", "vals": "VOdd"}
                         else:
                             for kk in r0[k]:
                                 if r[k][kk] != r0[k][kk]:
-                                    out[k][kk] = {"parent": "ROdd", "ends": "EOdd"}.get(kk, "Odd")
+                                    out[k][kk] = {"parent": "ROdd", "ends": "EOdd", "vals": _join_vst([r[k][kk], r0[k][kk]])}.get(kk, "Odd")
                     elif k == "scal":
                         out[k] = False
                     elif k == "aparent":
                         out[k] = "ROdd"
                     elif k in ("coords", "charges", "weights"):
                         out[k] = "AGiven" if {r[k], r0[k]} == {"AGiven", "ACopied"} else "AShared"
+                    elif k in ("vals", "avals"):
+                        out[k] = _join_vst([r[k], r0[k]])
                     else:
                         out[k] = "Odd"
             r0 = out
@@ -878,7 +1116,7 @@ def merge_rows(rows):
 def lone_row(ml, kind, route, rng):
     """Atom / Bond copied on their own."""
     from molli.chem import Atom, Bond
-    m = make_source(ml, rng, "Molecule", n=3, rich=True)
+    m = make_source(ml, rng, "Molecule", n=3, rich=True, vals="rich")
     x = m.atoms[1] if kind == "Atom" else m.bonds[0]
     if route[0] == "evolve":
         y = x.evolve()
@@ -895,14 +1133,17 @@ def lone_row(ml, kind, route, rng):
         return "RNone" if p is None else ("RKeep" if p is x.parent else "ROdd")
     obj = "Shared" if y is x else ("Copied" if same_leafs(x, y, ATOM_FIELDS if kind == "Atom" else BOND_FIELDS) else "Odd")
     att = st_dict(y.attrib, x.attrib)
+    vst = _join_vst([st_vals(y.attrib, x.attrib)])
     if kind == "Atom":
         return dict(alist="Copied", atom=obj, aattrib=att, aparent=par(y), bonds=None, coords="AAbsent", charges="AAbsent",
-                    weights="AAbsent", attrib="Copied", scal=True)
+                    weights="AAbsent", attrib="Copied", scal=True, avals=vst, vals=None)
     ends = {("EKeep" if (e is f) else ("ERemap" if same_leafs(e, f, ATOM_FIELDS) and e.attrib is not f.attrib else "EOdd"))
             for e, f in ((y.a1, x.a1), (y.a2, x.a2))}
+    # the end atoms a pickled / deep-copied bond brings along are judged with it (an evolved bond keeps the source's atoms)
+    evst = None if route[0] == "evolve" else _join_vst(st_vals(e.attrib, f.attrib) for e, f in ((y.a1, x.a1), (y.a2, x.a2)))
     return dict(alist="Copied", atom="Copied", aattrib="Copied", aparent="RSelf",
-                bonds=dict(list="Copied", obj=obj, attrib=att, parent=par(y), ends=ends.pop() if len(ends) == 1 else "EOdd"),
-                coords="AAbsent", charges="AAbsent", weights="AAbsent", attrib="Copied", scal=True)
+                bonds=dict(list="Copied", obj=obj, attrib=att, parent=par(y), ends=ends.pop() if len(ends) == 1 else "EOdd", vals=vst),
+                coords="AAbsent", charges="AAbsent", weights="AAbsent", attrib="Copied", scal=True, avals=evst, vals=None)
 
 
 MULTI = [("Structure", ("concat", "Structure", 2)), ("Molecule", ("concat", "Molecule", 2)), ("Molecule", ("concat", "Molecule", 1)),
@@ -921,7 +1162,7 @@ def gen_table(ctx):
             err = None
             for s in range(3):
                 rng = random.Random(9000 + s)
-                src = make_source(ml, rng, kname, n=2 + s, rich=True)
+                src = make_source(ml, rng, kname, n=2 + s, rich=True, vals="rich")
                 try:
                     su, ru = apply_single(ml, src, route, make_overrides(ml, rng, src, route))
                 except Exception as e:   # noqa
@@ -938,7 +1179,7 @@ def gen_table(ctx):
         for s in range(3):
             rng = random.Random(9100 + s)
             try:
-                _, v, ru = apply_multi(ml, rng, kname, route)
+                _, v, ru = apply_multi(ml, rng, kname, route, vals="rich")
             except Exception as e:   # noqa
                 err = type(e).__name__
                 break
@@ -965,9 +1206,22 @@ def gen_table(ctx):
 
 
 # ------------------------------------------------------------------ mutations
+VAL_MUTS = {"attrib_val": "obj", "atom_attrib_val": "atom", "bond_attrib_val": "bond"}
+
+
+def _holds_values(d):
+    return any(is_mut(v) for v in d.values())
+
+
 def mutations_for(unit):
     o = unit.read
     ms = ["atom_field", "atom_attrib", "attrib"]
+    if _holds_values(o.attrib):
+        ms += ["attrib_val"]
+    if any(_holds_values(a.attrib) for a in o.atoms):
+        ms += ["atom_attrib_val"]
+    if _has_bonds(o) and any(_holds_values(b.attrib) for b in o.bonds):
+        ms += ["bond_attrib_val"]
     if _has_bonds(o) and len(o.bonds):
         ms += ["bond_field", "bond_attrib"]
     if _pub(o, "coords") and o.n_atoms:
@@ -1013,10 +1267,23 @@ def do_mutation(unit, mut, rng, enc):
         nm = {"coord": "OCoord", "charge": "OCharge", "weight": "OWeight"}[mut]
         v = float(arr.flat[i])
         return lambda: f"({nm} {i} {Zt(enc.it(leaf_key(v)))})"
+    if mut in VAL_MUTS:
+        # an IN-PLACE edit of a mutable value stored in an attrib dictionary (the dictionary itself is not touched)
+        if mut == "attrib_val":
+            d, w = o.attrib, "WObj"
+        elif mut == "atom_attrib_val":
+            j = rng.choice([i for i, a in enumerate(o.atoms) if _holds_values(a.attrib)])
+            d, w = o.atoms[j].attrib, f"(WAtom {j})"
+        else:
+            j = rng.choice([i for i, b in enumerate(o.bonds) if _holds_values(b.attrib)])
+            d, w = o.bonds[j].attrib, f"(WBond {j})"
+        kind = edit_value_in_place(d, rng)
+        return ("vop:" + str(kind), lambda: f"(VEdit {w} {enc.zs(dict_store(d)[0])})")
     if mut == "attrib":
         d = o.attrib
-        if d and rng.random() < 0.4:
-            del d[next(iter(d))]
+        leafs = [k for k, v in d.items() if not is_mut(v)]       # a key that holds a mutable value is not rebound / deleted here
+        if leafs and rng.random() < 0.4:
+            del d[leafs[0]]
         else:
             d["added"] = rng.choice([5, "five"])
         return lambda: f"(OAttrib {enc.dct(d)})"
@@ -1025,8 +1292,9 @@ def do_mutation(unit, mut, rng, enc):
             return None
         j = rng.randrange(o.n_atoms)
         d = o.atoms[j].attrib
-        if d and rng.random() < 0.4:
-            del d[next(iter(d))]
+        leafs = [k for k, v in d.items() if not is_mut(v)]
+        if leafs and rng.random() < 0.4:
+            del d[leafs[0]]
         else:
             d["a_added"] = 11
         return lambda: f"(OAtomAttrib {j} {enc.dct(d)})"
@@ -1071,6 +1339,21 @@ def containers(unit):
     return out
 
 
+def value_members(unit):
+    """Every mutable object stored (at any depth) in an attrib dictionary of the object, its atoms, its bonds."""
+    ds = [("attrib-value", unit.attrib())] + [("atom-attrib-value", a.attrib) for a in unit.atoms_list()]
+    bl = unit.bonds_list()
+    if bl is not None:
+        ds += [("bond-attrib-value", b.attrib) for b in bl]
+        ds += [("atom-attrib-value", e.attrib) for b in bl for e in (b.a1, b.a2)]
+    return [(k, x) for k, d in ds for x in dict_store(d)[1]]
+
+
+def shared_values(u1, u2):
+    m2 = value_members(u2)
+    return sorted({k for k, x in value_members(u1) if any(same_obj(x, y) for _, y in m2)})
+
+
 def shared_kinds(u1, u2):
     import numpy as np
     c1, c2 = containers(u1), containers(u2)
@@ -1099,13 +1382,25 @@ class CaseOut:
         self.term = None
         self.violations = []     # (signature, text)
         self.key = None
+        self.vals = True
+        self.vkind = None       # kind of attribute value edited in place (ndarray / list / dict), if any
 
 
-def run_case(ml, rng, kname, route, mut_side, want_mut=None, emit=True, desig=None):
+DEEP_ROUTES = ("pickle", "deepcopy")      # routes whose contract is a deep copy (Model/Alias.v deep_route)
+TRACK_VALS = {}                            # (kname, route) -> False when the table row says VPart somewhere (the model has
+                                           # one store per dictionary: it cannot follow a partly shared one)
+
+
+def run_case(ml, rng, kname, route, mut_side, want_mut=None, emit=True, desig=None, vals=None):
     """Drives one (source class, route, mutation) triple through the real code.
     Returns CaseOut with the Coq term (if emit) and the oracle's verdicts."""
     out = CaseOut()
     route = norm_route(route)
+    deep = route[0] in DEEP_ROUTES
+    if vals is None:
+        vals = TRACK_VALS.get((kname, route), True)
+    out.vals = vals
+    ensure = VAL_MUTS.get(want_mut) if vals else None
     tag = f"C06:{kname}:{route_name(route)}"
     it = Intern()
     enc = Enc(it)
@@ -1124,9 +1419,9 @@ def run_case(ml, rng, kname, route, mut_side, want_mut=None, emit=True, desig=No
             st["root"] = encode_union(enc, v) if v is not None else enc.loc[("o", id(units[0].read), units[0].kname)]
             st["h0"] = enc.read_all()
     if multi:
-        srcus, v, resu = apply_multi(ml, rng, kname, route, pre, desig, kwout=kw)
+        srcus, v, resu = apply_multi(ml, rng, kname, route, pre, desig, kwout=kw, vals=vals, ensure=ensure)
     else:
-        src = make_source(ml, rng, kname)
+        src = make_source(ml, rng, kname, vals=vals, ensure=ensure)
         kw = make_overrides(ml, rng, src, route)        # before the snapshot: the call under test is the one with the keywords
         pre([Unit(src, route[0] in ("pickle", "deepcopy") and kname == "Conformer")], None)
         srcu, resu = apply_single(ml, src, route, kw)
@@ -1157,6 +1452,11 @@ def run_case(ml, rng, kname, route, mut_side, want_mut=None, emit=True, desig=No
         sk = shared_kinds(resu, su)
         for k in sk:
             out.violations.append((f"{tag}:shares-{k}", f"{route_name(route)} of a {kname}: the result shares its {k} container(s) with a source"))
+        if deep:
+            # a deep copy hands out attribute values of its own, nested ones included
+            for k in shared_values(resu, su):
+                out.violations.append((f"{tag}:shares-{k}", f"{route_name(route)} of a {kname}: a mutable value stored in an attrib dictionary "
+                                       f"of the result ({k}) IS the source's object (a deep copy must not share it)"))
     # ---- heap encoding of the copy (tie H)
     if emit:
         root, h0 = st["root"], st["h0"]
@@ -1167,7 +1467,7 @@ def run_case(ml, rng, kname, route, mut_side, want_mut=None, emit=True, desig=No
         if multi and hasattr(v, "new_bond_ends"):
             m += 1
         layout(enc, resu, base, n, m)
-        enc.pad(base + 7 + 2 * n + 2 * m)
+        enc.pad(base + 8 + 3 * n + 3 * m)
         h1 = enc.read_all()
         watch_units = list(srcus) + [resu]
         w1 = [(enc.loc[("o", id(u.read), u.kname)], raw_obs(u)) for u in watch_units]
@@ -1180,8 +1480,16 @@ def run_case(ml, rng, kname, route, mut_side, want_mut=None, emit=True, desig=No
     mut = want_mut if (want_mut in menu) else rng.choice(menu)
     snap = [raw_obs(u) for u in others]
     opf = do_mutation(mu, mut, rng, enc)
+    vopf = None
+    if isinstance(opf, tuple):
+        out.vkind = opf[0][4:]
+        vopf, opf = opf[1], None
     for u, s in zip(others, snap):
         now = raw_obs(u)
+        if mut in VAL_MUTS and not deep:
+            # a one-level route hands out the source's value objects: the in-place edit of such a value is not held
+            # against it; everything else of the other side must still be as it was
+            now, s = no_stores(now), no_stores(s)
         if now != s:
             side = "copy" if mut_side == "copy" else "source"
             out.violations.append((f"{tag}:leak:{mut}:{side}",
@@ -1201,9 +1509,11 @@ def run_case(ml, rng, kname, route, mut_side, want_mut=None, emit=True, desig=No
         given = (f"(mk_given {enc.zs(g_scal)} {enc.zs(g_arr['coords'])} {enc.zs(g_arr['charges'])} "
                  f"{enc.zs(g_arr['weights'])})")
         op_t = "None" if opf is None else f"(Some {opf()})"
+        vop_t = "None" if vopf is None else f"(Some {vopf()})"
         wt = lambda w: cq_list(f"({l}, {obs_term(o, it)})" for l, o in w)
+        dt = lambda w: cq_list(f"({l}, {stores_term(o, it)})" for l, o in w)
         out.term = (f"(mk_case {KCOQ[kname]} {route_coq(route)} {given}\n   {heap_term(h0)}\n   {root}\n   {heap_term(h1)}\n   {wt(w1)}\n"
-                    f"   {enc.loc[('o', id(mu.read), mu.kname)]} {op_t}\n   {cq_list(prims)}\n   {wt(w2)})")
+                    f"   {enc.loc[('o', id(mu.read), mu.kname)]} {op_t} {vop_t}\n   {cq_list(prims)}\n   {wt(w2)}\n   {dt(w1)}\n   {dt(w2)})")
     return out
 
 
@@ -1243,7 +1553,7 @@ def encode_union(enc, v):
     bonds = [str(enc.reg("bond", b)) for b in v.bonds]
     if hasattr(v, "new_bond_ends"):
         # join creates one new bond between the two anchor atoms: modelled as a bond of the union object
-        d = enc.synth("(CDict [])")
+        d = enc.synth("(CDict [] None)")
         a1r, a2r = v.new_bond_ends
         nb = v.new_bond_payload
         bonds.append(str(enc.synth(f"(CBond {enc.reg('atom', a1r)} {enc.reg('atom', a2r)} {enc.zs(nb)} {d} PNone)")))
@@ -1252,7 +1562,7 @@ def encode_union(enc, v):
     def arr(a):
         return "None" if a is None else f"(Some {enc.synth('(CArr ' + enc.zs(flat(a)) + ')')})"
     co, ch, we = arr(v.coords), arr(v.charges), arr(v.weights)
-    at = enc.reg("dict", v.attrib_d) if v.attrib_d is not None else enc.synth("(CDict [])")
+    at = enc.reg("dict", v.attrib_d) if v.attrib_d is not None else enc.synth("(CDict [] None)")
     sc = enc.zs(v.scal_v) if v.scal_v is not None else "[]"
     return enc.synth(f"(CMol {Zt(KCODE[v.kname])} {sc} {al} (Some {bl}) {co} {ch} {we} {at})")
 
@@ -1279,19 +1589,35 @@ def layout(enc, resu, base, n, m):
         for j, b in enumerate(list(bl)[:m]):
             put("bond", b, base + 7 + 2 * n + j)
             put("dict", b.attrib, base + 7 + 2 * n + m + j)
+    # the stores of the mutable attribute values the result's dictionaries hold (absent when they are the source's objects)
+    vb = base + 7 + 2 * n + 2 * m
+
+    def put_store(d, at):
+        if not enc.store_known(d):
+            enc.reg_store(d, at=at)
+    put_store(resu.attrib(), vb)
+    for j, a in enumerate(list(resu.atoms_list())[:n]):
+        put_store(a.attrib, vb + 1 + j)
+    if bl is not None:
+        for j, b in enumerate(list(bl)[:m]):
+            put_store(b.attrib, vb + 1 + n + j)
 
 
 def judge_derived(out, tag, kname, route, srcus, v, resu, ro_res, need):
     """Faithfulness of a derived molecule: its atoms / bonds (/ coordinates / charges) are its sources'."""
     rn = route_name(route)
-    want_atoms = [([leaf_key(getattr(a, f)) for f in ATOM_FIELDS], [(leaf_key(k), leaf_key(x)) for k, x in a.attrib.items()]) for a in v.atoms]
+    want_atoms = [([leaf_key(getattr(a, f)) for f in ATOM_FIELDS], [(leaf_key(k), vkey(x)) for k, x in a.attrib.items()]) for a in v.atoms]
     got_atoms = [(p, d) for p, d, _ in ro_res["atoms"]]
     if want_atoms != got_atoms:
         out.violations.append((f"{tag}:atoms-differ", f"{rn}: atoms of the result differ from the sources' atoms"))
+    if [dict_store(a.attrib)[0] for a in v.atoms] != ro_res["stores"]["atoms"]:
+        out.violations.append((f"{tag}:atom-attrib-values-differ", f"{rn}: the values stored in the atoms' attrib dictionaries differ from the sources'"))
     idx = {id(a): i for i, a in enumerate(v.atoms)}
     want_b = [(idx.get(id(b.a1)), idx.get(id(b.a2)), [leaf_key(getattr(b, f)) for f in BOND_FIELDS],
-               [(leaf_key(k), leaf_key(x)) for k, x in b.attrib.items()]) for b in v.bonds]
+               [(leaf_key(k), vkey(x)) for k, x in b.attrib.items()]) for b in v.bonds]
     got_b = [(i, j, p, d) for i, j, p, d, _ in (ro_res["bonds"] or [])]
+    if [dict_store(b.attrib)[0] for b in v.bonds] != ro_res["stores"]["bonds"][:len(v.bonds)]:
+        out.violations.append((f"{tag}:bond-attrib-values-differ", f"{rn}: the values stored in the bonds' attrib dictionaries differ from the sources'"))
     if hasattr(v, "new_bond_ends"):
         nb = got_b[-1] if len(got_b) == len(want_b) + 1 else None
         if nb is None or {nb[0], nb[1]} != {idx[id(v.new_bond_ends[0])], idx[id(v.new_bond_ends[1])]}:
@@ -1327,7 +1653,8 @@ def judge_derived(out, tag, kname, route, srcus, v, resu, ro_res, need):
                 out.violations.append((f"{tag}:coords-differ", f"{rn}: the coordinate rows of fragment {fi + 1} are not those of the atoms they were copied from"))
     if need["scal"] and ro_res["scal"] != v.scal_v:
         out.violations.append((f"{tag}:scal-differ", f"{rn}: name/charge/mult differ from the first source's"))
-    if need["attrib"] and ro_res["attrib"] != [(leaf_key(k), leaf_key(x)) for k, x in v.attrib_d.items()]:
+    if need["attrib"] and (ro_res["attrib"] != [(leaf_key(k), vkey(x)) for k, x in v.attrib_d.items()]
+                           or ro_res["stores"]["obj"] != dict_store(v.attrib_d)[0]):
         out.violations.append((f"{tag}:attrib-differ", f"{rn}: attrib differs from the first source's"))
     if route[0] == "concat":
         r = resu.read
@@ -1342,6 +1669,7 @@ def judge_derived(out, tag, kname, route, srcus, v, resu, ro_res, need):
 # ------------------------------------------------------------------ the plan of cases
 ALL_MUTS = ["atom_field", "atom_attrib", "attrib", "bond_field", "bond_attrib", "coord", "coords_assign", "charge",
             "weight", "scal", "del_atom", "add_h", "label_atoms"]
+VAL_MUT_LIST = ["attrib_val", "atom_attrib_val", "bond_attrib_val"]
 
 
 def plan(ctx):
@@ -1350,10 +1678,18 @@ def plan(ctx):
     reps = 1 if not ctx.thorough else 6
     quads = []
     combos = [(a, b) for a in DESIGNATORS for b in DESIGNATORS]
+    vc = 0
     for kname, route in [(k, r) for k in SOURCES for r in single_routes(k)] + MULTI:
         c = 0
         for side in ("copy", "source"):
-            for mut in ALL_MUTS:
+            # in-place edits of attribute VALUES (object / atom / bond level): all three on the routes whose contract is a
+            # deep copy; on the one-level routes one level in turn (quick) or all three (thorough)
+            if route[0] in DEEP_ROUTES or ctx.thorough:
+                vmuts = list(VAL_MUT_LIST)
+            else:
+                vmuts = [VAL_MUT_LIST[vc % 3]]
+                vc += 1
+            for mut in ALL_MUTS + vmuts:
                 for _ in range(reps):
                     # join: the attachment points are designated in every pair of AtomLike forms in turn
                     quads.append((kname, route, side, mut, combos[c % len(combos)] if route[0] == "join" else None))
@@ -1371,7 +1707,7 @@ def plan(ctx):
         ov = route_ov(route)
         for side in ("copy", "source"):
             if ctx.thorough:
-                muts = list(ALL_MUTS)
+                muts = list(ALL_MUTS) + VAL_MUT_LIST
             else:
                 # one keyword: the edit that goes for the replaced field; all keywords: one of four array / scalar edits and
                 # one more of the menu in turn
@@ -1388,14 +1724,17 @@ def lone_oracle(ml, rng, rep):
         for rname, f in (("evolve", lambda x: x.evolve()), ("pickle", lambda x: pickle.loads(pickle.dumps(x))),
                          ("deepcopy", _copy.deepcopy)):
             for side in ("copy", "source"):
-                m = make_source(ml, rng, "Molecule", n=3, rich=True)
+                m = make_source(ml, rng, "Molecule", n=3, rich=True, vals="rich")
                 x = m.atoms[rng.randrange(3)] if kind == "Atom" else m.bonds[0]
                 fields = ATOM_FIELDS if kind == "Atom" else BOND_FIELDS
+                deep = rname in DEEP_ROUTES
 
-                def snap(z):
-                    d = {"fields": [leaf_key(getattr(z, f)) for f in fields], "attrib": [(leaf_key(k), leaf_key(v)) for k, v in z.attrib.items()]}
+                def snap(z, values=True):
+                    # values=False: without the content of the mutable attribute values
+                    vk = leaf_key if values else vkey
+                    d = {"fields": [leaf_key(getattr(z, f)) for f in fields], "attrib": [(leaf_key(k), vk(v)) for k, v in z.attrib.items()]}
                     if kind == "Bond":
-                        d["ends"] = [([leaf_key(getattr(e, f)) for f in ATOM_FIELDS], [(leaf_key(k), leaf_key(v)) for k, v in e.attrib.items()])
+                        d["ends"] = [([leaf_key(getattr(e, f)) for f in ATOM_FIELDS], [(leaf_key(k), vk(v)) for k, v in e.attrib.items()])
                                      for e in (z.a1, z.a2)]
                     return d
                 y = f(x)
@@ -1415,6 +1754,24 @@ def lone_oracle(ml, rng, rep):
                 if snap(b) != before:
                     rep.violate(tag + f":leak:{side}", f"after {rname} of a lone {kind}, editing the {side} changed the other object",
                                 {"lone": kind, "route": rname})
+                # in-place edit of a mutable attribute value (of the end atoms of a pickled / deep-copied bond as well)
+                rep.count("lone-value-edit:" + rname)
+                if deep:
+                    mine = list(dict_store(a.attrib)[1])
+                    theirs = dict_store(b.attrib)[1]
+                    if kind == "Bond":
+                        mine += dict_store(a.a1.attrib)[1] + dict_store(a.a2.attrib)[1]
+                        theirs = theirs + dict_store(b.a1.attrib)[1] + dict_store(b.a2.attrib)[1]
+                    if any(same_obj(p, q) for p in mine for q in theirs):
+                        rep.violate(tag + ":shares-attrib-value", f"{rname} of a lone {kind}: a mutable value stored in an attrib dictionary "
+                                    "of the copy IS the source's object", {"lone": kind, "route": rname})
+                before = snap(b, values=deep)
+                edit_value_in_place(a.attrib, rng)
+                if kind == "Bond" and deep:
+                    edit_value_in_place(a.a1.attrib, rng)
+                if snap(b, values=deep) != before:
+                    rep.violate(tag + f":leak:attrib_val:{side}", f"after {rname} of a lone {kind}, an in-place edit of an attribute value of the "
+                                f"{side} changed the other object", {"lone": kind, "route": rname})
 
 
 def _quiet():
@@ -1436,13 +1793,22 @@ def run(ctx, rep):
                     "CPython 3.12, pickle / copy protocol, attrs.evolve, numpy array copying are executed, not modelled"]
     rep.assumptions += ["keyword overrides are generated truthy and different from the source's value (molli reads a falsy name / charge / "
                         "mult as `not given`; an array keyword for an ensemble built from an object without conformers has no row to fill)",
-                        "values stored INSIDE an attribute dictionary are not followed (the property speaks of setting / deleting keys)",
+                        "mutable values stored INSIDE an attribute dictionary: routes whose contract is a deep copy (pickle, deepcopy) must "
+                        "separate them at every depth; the one-level routes (copy constructors, evolve, concatenate, join, ensemble-from-list) "
+                        "hand out the source's value objects in /repo (table: VShared) -- the property enumerates edits of atoms, bonds, "
+                        "coordinates, charges and attribute DICTIONARIES, so an in-place edit of such a value is not held against them",
+                        "one store per dictionary: an in-place value edit never adds / removes a mutable object, the attrib / atom_attrib "
+                        "edits never rebind a key that holds one",
                         "the alias row of a route does not depend on the particular source (checked on every random case by tie H)",
                         "a Conformer pickled / deep-copied as a conformer is judged through its ensemble; a Conformer's coordinate "
                         "and charge rows are read as its own arrays (their aliasing with the ensemble is C14's subject)"]
     rows, raising = gen_table(ctx)
     for k, r, x in rows:
         rep.count("route:" + r[0])
+        levels = [v for v in [x["vals"], x["avals"]] + ([x["bonds"]["vals"]] if x["bonds"] else []) if v]
+        # (only a one-level route may be partly shared; a deep route that is goes on being driven with mutable values)
+        TRACK_VALS[(k, norm_route(r))] = "VPart" not in levels or r[0] in DEEP_ROUTES
+        rep.count("attrib-values:" + ("deep:" if r[0] in DEEP_ROUTES else "one-level:") + "/".join(sorted(set(levels))))
     rep.extra["routes_tabulated"] = len(rows)
     rep.extra["routes_raising"] = [f"{k} {route_name(r)} {e}" for k, r, e in raising]
     ok, outp, where = vlib.build_props(ctx, rep, "C06")
@@ -1462,6 +1828,10 @@ def run(ctx, rep):
             continue
         rep.case(key=co.key, sample={"class": kname, "route": route_name(route), "mutation": co.key[2], "side": side} if len(cases) % 97 == 0 else None)
         rep.count("mutation:" + co.key[2])
+        if co.vkind:
+            rep.count(f"value-edit:{co.vkind}:{'deep' if route[0] in DEEP_ROUTES else 'one-level'}-route")
+        if not co.vals:
+            rep.count("sources-without-mutable-values(route partly shares them)")
         for f in route_ov(route):
             rep.count("override:" + f)
         if route_ov(route):
@@ -1473,7 +1843,8 @@ def run(ctx, rep):
             rep.count(f"join-designators:{desig[0]}/{desig[1]}")
         for sig, text in co.violations:
             found = True
-            rep.violate(sig, text, {"kname": kname, "route": list(route), "side": side, "seed": seed, "mut": mut, "desig": desig})
+            rep.violate(sig, text, {"kname": kname, "route": list(route), "side": side, "seed": seed, "mut": mut, "desig": desig,
+                                    "vals": co.vals})
     if rep.extra.get("case_errors") and len(rep.extra["case_errors"]) > len(cases) // 10 + 3:
         vlib.broken_obligation(rep, "C06_cases", "too many cases could not be driven: " + "; ".join(rep.extra["case_errors"][:3]), found)
     bad = vlib.run_shards(ctx, rep, "c06", HEADER, "(check_case table)", cases, shard=60, case_type="case")
@@ -1493,7 +1864,8 @@ def run(ctx, rep):
                         continue
                     for sig, text in co.violations:
                         found = True
-                        rep.violate(sig, text, {"kname": kname, "route": list(route), "side": sd, "seed": seed * 131 + s2, "emit": False})
+                        rep.violate(sig, text, {"kname": kname, "route": list(route), "side": sd, "seed": seed * 131 + s2, "emit": False,
+                                                "vals": co.vals})
         vlib.broken_obligation(rep, "C06_correspondence", f"{len(bad)} case(s) where the model and the implementation disagree: "
                                + "; ".join(rep.extra["mismatching_cases"][:5]), found)
     if not ok:
@@ -1511,5 +1883,5 @@ def replay(ctx, data):
         lone_oracle(ml, random.Random(1), rep)
         return [v for v in rep.violations if v.replay.get("lone") == data["lone"] and v.replay.get("route") == data["route"]]
     co = run_case(ml, random.Random(data["seed"]), data["kname"], norm_route(data["route"]), data["side"], want_mut=data.get("mut"), emit=False,
-                  desig=tuple(data["desig"]) if data.get("desig") else None)
+                  desig=tuple(data["desig"]) if data.get("desig") else None, vals=data.get("vals", True))
     return [vlib.Violation(s, t) for s, t in co.violations]
